@@ -135,6 +135,8 @@ use timer::{Timer, TimerTable};
 /// call to [`handle_event`](Self::handle_event) at that same instant; however
 /// events or timeouts with different instants must not be interleaved.
 pub struct Connection {
+    #[cfg(feature = "quinn_rs_quinn_verif")]
+    verif_inject: verif::Inject,
     endpoint_config: Arc<EndpointConfig>,
     config: Arc<TransportConfig>,
     rng: StdRng,
@@ -276,6 +278,8 @@ impl Connection {
         });
         let mut rng = StdRng::from_seed(rng_seed);
         let mut this = Self {
+            #[cfg(feature = "quinn_rs_quinn_verif")]
+            verif_inject: verif::Inject::default(),
             endpoint_config,
             crypto,
             handshake_cid: loc_cid,
@@ -3257,6 +3261,13 @@ impl Connection {
         pn: u64,
     ) -> SentFrames {
         let mut sent = SentFrames::default();
+        #[cfg(feature = "quinn_rs_quinn_verif")]
+        if self.verif_write_injected(space_id, buf, max_size, pn) {
+            self.spaces[space_id].ping_pending = false;
+            buf.write(frame::FrameType::PING);
+            sent.non_retransmits = true;
+            return sent;
+        }
         let space = &mut self.spaces[space_id];
         let is_0rtt = space_id == SpaceId::Data && space.crypto.is_none();
         space.pending_acks.maybe_ack_non_eliciting();
